@@ -9,8 +9,8 @@ EXTENDS Cells, TLC, Json, IOUtils, TLCExt
 
 Log == ndJsonDeserialize(IOEnv.TRACE_FILE)
 
-VARIABLES t, l, fails, seen, polys, clean
-tvars == <<t, l, fails, seen, polys, clean>>
+VARIABLES t, l, fails, seen, polys, clean, woff      \* woff: offset applied in place to every data variable so far (Mutate events)
+tvars == <<t, l, fails, seen, polys, clean, woff>>
 Rec == Log[t]
 Ev  == Log[t].events[l]
 W0  == Log[t].w
@@ -33,9 +33,13 @@ VarNames(ww, S) == {ww.vars[i].name : i \in S}
 Centroid4OK(c4, Pg) == PointInClosedPoly(c4, [k \in 1..Len(Pg) |-> <<4 * Pg[k][1], 4 * Pg[k][2]>>])
 
 \* values of all variables on grid kind k selected at the cells ns (request order), -1 = miss
+\* variables flagged `late` are added to the dataset by the first Mutate event
+Exists(ww, i) == ~ww.vars[i].late \/ woff # 0
+SelVars(ww, k) == {i \in SelectedVars(ww, k) : Exists(ww, i)}
 ManyOK(ww, k, ns, dimname, vs) ==
-  /\ VarNames(ww, SelectedVars(ww, k)) \subseteq NamesOf(vs)
-  /\ \A i \in SelectedVars(ww, k) : SelectManyOK(ww, ww.vars[i], ns, dimname, ObsVar(vs, ww.vars[i].name))
+  /\ VarNames(ww, SelVars(ww, k)) \subseteq NamesOf(vs)
+  /\ \A i \in SelVars(ww, k) : SelectManyOKOff(ww, ww.vars[i], ns, dimname, ObsVar(vs, ww.vars[i].name), woff)
+ShiftSeq(sq) == [k \in 1..Len(sq) |-> Shift(sq[k], woff)]
 
 \* the request dimension: given, or the first unused name with the documented prefix
 DimOf(ww, e) ==
@@ -57,7 +61,7 @@ FaceTag(ww, v, n) == Tag(ww, v, <<>>, n)
 NonMissing(S) == {x \in S : x # MISSING}
 
 Clause(name, ww, e) ==
-  CASE name = "Completed" -> Ok(e) \/ e.a \in {"SelectPoint", "SelectPoints", "ExtractDF"}
+  CASE name = "Completed" -> Ok(e) \/ e.a \in {"SelectPoint", "SelectPoints", "ExtractDF", "Mutate"}
                              \/ (e.a \in {"PolyCollection", "Quiver"} /\ e.refuse # "")
     \* ------------------------------------------------------------ C02
     [] name = "PolyOrder" ->
@@ -75,14 +79,14 @@ Clause(name, ww, e) ==
     [] name = "RavelOrder" ->
          Is(e, "Ravel") =>
             LET v == ww.vars[VarByName(ww, e.var)]  V == RavelView(ww, v)  R == e.obs.ok
-            IN /\ R.data = V.data /\ R.shape = V.shape
+            IN /\ R.data = ShiftSeq(V.data) /\ R.shape = V.shape
                /\ Len(R.dims) = Len(V.dims) + 1 /\ SubSeq(R.dims, 1, Len(V.dims)) = V.dims
     [] name = "SelectOrder" ->
          Is(e, "SelectIndex") =>
-            /\ VarNames(ww, SelectedVars(ww, e.kind)) \subseteq NamesOf(e.obs.ok.vars)
-            /\ \A i \in SelectedVars(ww, e.kind) :
+            /\ VarNames(ww, SelVars(ww, e.kind)) \subseteq NamesOf(e.obs.ok.vars)
+            /\ \A i \in SelVars(ww, e.kind) :
                  LET V == SelectView(ww, ww.vars[i], e.n)  R == ObsVar(e.obs.ok.vars, ww.vars[i].name)
-                 IN R.dims = V.dims /\ R.shape = V.shape /\ R.data = V.data
+                 IN R.dims = V.dims /\ R.shape = V.shape /\ R.data = ShiftSeq(V.data)
     [] name = "SelectAbsent" ->
          Is(e, "SelectIndex") => VarNames(ww, AbsentVars(ww, e.kind)) \cap NamesOf(e.obs.ok.vars) = {}
     [] name = "HitsArePositions" ->
@@ -107,10 +111,10 @@ Clause(name, ww, e) ==
             LET n == Least(Hits(<<e.p[1], e.p[2]>>))
             IN IF n < 0 THEN "err" \in DOMAIN e.obs
                ELSE /\ Ok(e)
-                    /\ VarNames(ww, SelectedVars(ww, "face")) \subseteq NamesOf(e.obs.ok.vars)
-                    /\ \A i \in SelectedVars(ww, "face") :
+                    /\ VarNames(ww, SelVars(ww, "face")) \subseteq NamesOf(e.obs.ok.vars)
+                    /\ \A i \in SelVars(ww, "face") :
                          LET V == SelectView(ww, ww.vars[i], n)  R == ObsVar(e.obs.ok.vars, ww.vars[i].name)
-                         IN R.dims = V.dims /\ R.shape = V.shape /\ R.data = V.data
+                         IN R.dims = V.dims /\ R.shape = V.shape /\ R.data = ShiftSeq(V.data)
     \* ------------------------------------------------------------ C05
     [] name = "IndexesValues" -> Is(e, "SelectIndexes") => ManyOK(ww, e.kind, e.ns, DimOf(ww, e), e.obs.ok.vars)
     [] name = "IndexesAbsent" ->
@@ -201,6 +205,7 @@ Failing(ww, e) == {name \in ClauseNames : ~Clause(name, ww, e)}
 
 SeenOf(ww, e) ==
   {e.a, ww.conv}
+  \cup (IF woff # 0 /\ e.a # "Mutate" THEN {"after-mutation"} ELSE {})
   \cup (IF ~clean THEN {"degenerate-skipped"} ELSE {})
   \cup (IF \E n \in 1..Len(polys) : polys[n] = <<>> THEN {"holes"} ELSE {})
   \cup (IF e.a \in {"Lookup", "Query"} /\ clean THEN
@@ -224,12 +229,14 @@ SeenOf(ww, e) ==
   \cup (IF e.a = "SelectIndexes" /\ \E a, b \in 1..Len(e.ns) : a # b /\ e.ns[a] = e.ns[b] THEN {"repeats"} ELSE {})
 
 Done == t > Len(Log)
-TInit == /\ t = 1 /\ l = 1 /\ fails = {} /\ seen = {}
+TInit == /\ t = 1 /\ l = 1 /\ fails = {} /\ seen = {} /\ woff = 0
          /\ polys = IF Len(Log) > 0 THEN PolysOf(Log[1].w) ELSE <<>>
          /\ clean = IF Len(Log) > 0 THEN CleanOf(Log[1].w) ELSE TRUE
 Advance ==
-  IF l < Len(Rec.events) THEN l' = l + 1 /\ t' = t /\ UNCHANGED <<polys, clean>>
-  ELSE /\ l' = 1 /\ t' = t + 1
+  IF l < Len(Rec.events)
+  THEN /\ l' = l + 1 /\ t' = t /\ UNCHANGED <<polys, clean>>
+       /\ woff' = IF Ev.a = "Mutate" THEN woff + Ev.off ELSE woff
+  ELSE /\ l' = 1 /\ t' = t + 1 /\ woff' = 0
        /\ polys' = IF t + 1 <= Len(Log) THEN PolysOf(Log[t + 1].w) ELSE <<>>
        /\ clean' = IF t + 1 <= Len(Log) THEN CleanOf(Log[t + 1].w) ELSE TRUE
 Step ==
